@@ -302,7 +302,7 @@ Proof. destruct l; [reflexivity | discriminate]. Qed.
 Lemma ident_inv s s' i :
   p_ident toks s = POk s' i -> refp s <= pos s ->
   exists c x, i = x_ident (pos s - refp s) c x /\ Seg (pos s) (cm c ++ [Ident x]) /\
-              pos s' = pos s + length c + 1 /\ refp s' = refp s /\ ebuf s' = ebuf s.
+              pos s' = pos s + length c + 1 /\ refp s' = refp s /\ ebuf s' = ebuf s /\ c = comments_at toks (pos s).
 Proof.
   unfold p_ident. intros H Hrp. apply p_map_ok in H as ([t inf] & H & ->).
   apply p_info_ok in H as (s1 & H & -> & Hinf). cbn [fst snd] in *.
@@ -520,6 +520,39 @@ Lemma Spec_ident :
 Proof.
   intros s s' i H Hr _ _. apply ident_inv in H as (c & x & -> & Hs & Hp & Hr' & _); [|exact Hr].
   exists (cm c ++ [Ident x]). rewrite app_length, cm_length. cbn [length]. repeat split; [exact Hs | lia | exact Hr' | eauto].
+Qed.
+
+(* the same with the comment slot named: it is what [comments_at] sees, hence empty right after
+   p_comments (the doc comments of a declaration belong to the declaration, not to its first token) *)
+Lemma comments_at_sig p : comments_at toks (p + length (comments_at toks p)) = [].
+Proof.
+  pose proof (sig_at_idem toks p) as H. unfold sig_at at 1 in H. fold (sig_at toks p) in *.
+  destruct (comments_at toks (sig_at toks p)) eqn:E; [reflexivity|]. cbn [length] in H. lia.
+Qed.
+
+Lemma Spec_tag' f :
+  Spec (p_tag toks f) CTrue (fun k r t l => exists c, l = cm c ++ [tk t] /\ f (tk t) = true /\ c = comments_at toks k).
+Proof.
+  intros s s' t H _ _ _. apply tag_inv in H as (Hf & Hs & Hp & Hr & _).
+  exists (cm (comments_at toks (pos s)) ++ [tk t]). rewrite app_length, cm_length. cbn [length].
+  repeat split; [exact Hs | lia | exact Hr | eauto].
+Qed.
+
+Lemma Spec_ident' :
+  Spec (p_ident toks) CTrue
+    (fun k r i l => exists c x, i = x_ident (k - r) c x /\ l = cm c ++ [Ident x] /\ c = comments_at toks k).
+Proof.
+  intros s s' i H Hr _ _. apply ident_inv in H as (c & x & -> & Hs & Hp & Hr' & _ & Hc); [|exact Hr].
+  exists (cm c ++ [Ident x]). rewrite app_length, cm_length. cbn [length]. repeat split; [exact Hs | lia | exact Hr' | eauto].
+Qed.
+
+Lemma Spec_comments' :
+  Spec (p_comments toks) CTrue (fun k r c l => l = cm c /\ comments_at toks (k + length c) = []).
+Proof.
+  intros s s' c H _ _ _. unfold p_comments in H. injection H as <- <-.
+  exists (cm (comments_at toks (pos s))). rewrite cm_length. cbn [pos refp adv]. repeat split.
+  - exists (skipn (sig_at toks (pos s)) K). apply skipn_sig.
+  - apply comments_at_sig.
 Qed.
 
 Lemma Spec_intlit :
